@@ -100,6 +100,24 @@ fn show_key(j: &Jwk) -> (String, Option<String>) {
   if j.is_public() == has_private && fail.is_none() {
     fail = Some(format!("is-public-wrong:is_public {} but private members present = {}", j.is_public(), has_private));
   }
+  // RFC 7638 §3.2 / RFC 8037 §2: required members only, lexicographic order, no whitespace — computed
+  // independently through a sorted map
+  if j.kty() == j.params().kty() && fail.is_none() {
+    let names: &[&str] = match f { "ec" => &["crv", "x", "y"], "rsa" => &["e", "n"], "oct" => &["k"], _ => &["crv", "x"] };
+    let mut req: std::collections::BTreeMap<&str, String> = std::collections::BTreeMap::new();
+    req.insert("kty", kty_name(j.kty()).to_string());
+    for n in names {
+      if let Some((_, v)) = ms.iter().find(|(k, _)| k == n) {
+        req.insert(n, v.clone());
+      }
+    }
+    let plain = req.values().all(|v| v.chars().all(|c| c.is_ascii_alphanumeric() || c == '-' || c == '_'));
+    let want = serde_json::to_string(&req).unwrap();
+    let got = j.thumbprint_hash_input();
+    if plain && req.len() == names.len() + 1 && want != got {
+      fail = Some(format!("thumbprint-not-rfc7638:{} expected {}", got, want));
+    }
+  }
   let proj = match j.to_public() {
     None => "none".to_string(),
     Some(p) => {
